@@ -1,4 +1,65 @@
-From Coq Require Import List NArith.
-Theorem c15_placeholder : (1 + 1 = 2)%N.
-Proof. reflexivity. Qed.
-Print Assumptions c15_placeholder.
+(* C15  A graceful close persists what memory held.  One-key model (Hybrid/Engine.v). *)
+From Coq Require Import List NArith Bool.
+From FV Require Import Hybrid.Engine Hybrid.EngineInv Hybrid.EngineThms.
+Import ListNotations.
+Open Scope N_scope.
+
+Definition reachable (c : hcfg) (s : kst) : Prop := exists l, run_ok c init_k l /\ s = krun c init_k l.
+
+Lemma reachable_kinv c s : bug_rr c = false -> reachable c s -> KInv c s.
+Proof. intros Hrr [l [Hok ->]]. apply kinv_run; auto. apply kinv_init. Qed.
+Print Assumptions reachable_kinv.
+
+(* flush-on-close under write-on-eviction: when close() returns, the resident version (not in-memory-only, admitted,
+   not a young copy of what the disk already has) is on the device, indexed, the write queue is empty *)
+Theorem c15_close_persists : forall c s b v l a,
+  bug_rr c = false -> reachable c s -> foc c = true -> woi c = false -> accepts c = true ->
+  kmem s = Some (v, l, a) -> l <> LInMem -> a <> Young ->
+  exists sq, pipe (do_close c s b) = [] /\ kkeep (do_close c s b) = None /\ kmem (do_close c s b) = None /\
+             kidx (do_close c s b) = Some (IAddr sq v b) /\ In (v, sq, b) (kdisk (do_close c s b)) /\
+             ktop (do_close c s b) = Some (Some v, sq).
+Proof. intros c s b v l a Hrr Hr. apply close_persists; auto. apply reachable_kinv; auto. Qed.
+Print Assumptions c15_close_persists.
+
+(* ... and retrievable: before the process exits, and from the reopened store provided recovery picks that copy
+   (it is the highest sequence written; the scan finds it: C07, C10) *)
+Theorem c15_close_then_lookup : forall c s b v l a,
+  bug_rr c = false -> reachable c s -> foc c = true -> woi c = false -> accepts c = true ->
+  kmem s = Some (v, l, a) -> l <> LInMem -> a <> Young ->
+  lookup_now (do_close c s b) = Some v.
+Proof. intros c s b v l a Hrr Hr. apply close_then_lookup; auto. apply reachable_kinv; auto. Qed.
+Print Assumptions c15_close_then_lookup.
+
+Theorem c15_close_reopen_lookup_partial : forall c s b v l a vis,
+  bug_rr c = false -> reachable c s -> foc c = true -> woi c = false -> accepts c = true ->
+  kmem s = Some (v, l, a) -> l <> LInMem -> a <> Young ->
+  (forall sq, ktop (do_close c s b) = Some (Some v, sq) -> best_of (do_close c s b) vis = Some (IAddr sq v b)) ->
+  lookup_now (do_recover c (do_close c s b) vis) = Some v.
+Proof. intros c s b v l a vis Hrr Hr. apply close_reopen_lookup; auto. apply reachable_kinv; auto. Qed.
+Print Assumptions c15_close_reopen_lookup_partial.
+
+(* with flush-on-close disabled nothing is written at close *)
+Theorem c15_no_flush_nothing_written : forall c s b, foc c = false -> ksubs (do_close c s b) = ksubs s.
+Proof. intros. apply close_without_flush_submits_nothing; auto. Qed.
+Print Assumptions c15_no_flush_nothing_written.
+
+(* close leaves no work behind: wait()/close() return with an empty pipeline *)
+Theorem c15_close_drains : forall c s b, pipe (do_close c s b) = [].
+Proof. intros. unfold do_close. apply drain_all_empty. Qed.
+Print Assumptions c15_close_drains.
+
+(* whatever the reopened store answers is the latest value *)
+Theorem c15_reopen_fresh : forall c s b vis r,
+  bug_rr c = false -> reachable c s -> restart_ok c s b vis ->
+  lookup_now (kstep c s (KRestart b vis)) = Some r -> ktruth s = Some r.
+Proof. intros c s b vis r Hrr Hr. apply reopen_lookup_fresh; auto. apply reachable_kinv; auto. Qed.
+Print Assumptions c15_reopen_fresh.
+
+Example c15_nonvacuous :
+  let c := mkCfg false true false true true false in
+  let s := krun c init_k [KIns LDefault; KEvict; KDrain 0; KIns LDefault] in
+  run_ok c init_k [KIns LDefault; KEvict; KDrain 0; KIns LDefault] /\
+  kmem s = Some (2, LDefault, Fresh) /\ lookup_now (do_close c s 1) = Some 2 /\
+  lookup_now (do_recover c (do_close c s 1) (kdisk (do_close c s 1))) = Some 2 /\
+  restart_ok c s 1 (kdisk (do_close c s 1)).
+Proof. vm_compute. repeat split; try discriminate. exists 1. split; auto. Qed.
